@@ -267,7 +267,18 @@ impl BlockWrite for RollingWriter {
                     (next_file_number, file)
                 } else {
                     let next_file_number = self.directory.files.inc(&self.file_number);
-                    let file = create_file(&self.directory.dir, &next_file_number)?;
+                    let file = match create_file(&self.directory.dir, &next_file_number) {
+                        Ok(file) => file,
+                        Err(io_err) => {
+                            if io_err.kind() == io::ErrorKind::AlreadyExists {
+                                // That name is taken by something that is not one of our files
+                                // (the directory scan only tracks regular files): do not keep
+                                // tracking it, or a retry would open and overwrite it.
+                                self.directory.files.forget(&next_file_number);
+                            }
+                            return Err(io_err);
+                        }
+                    };
                     (next_file_number, file)
                 };
 
